@@ -14,6 +14,7 @@ RULE = ("random context-free grammars restricted to useful symbols (the library'
         ">=2 productions, one with a body of length >=2.")
 LEVEL = "proof"
 THEOREMS = ["Pfl.LL1Lib.parse_isSome",
+            "Pfl.LL1Lib.parse_no_start",
             "Pfl.LL1Lib.parse_total",
             "Pfl.LL1Lib.steps_double",
             "Pfl.LL1Lib.firstSet_isSome",
@@ -66,6 +67,8 @@ def generate(rng, tier):
                      ["N", [["t", "c"]]]] + ([["N", []]] if n_eps else [])
             rng.shuffle(prods)
             spec = {"vars": [], "ters": [], "start": "S", "prods": prods, "as_list": rng.random() < 0.5}
+        if rng.random() < 0.03:
+            spec["start"] = None          # a grammar without start symbol: every parser refuses every word
         yield {"g": spec}
 
 
